@@ -239,6 +239,7 @@ func (x *Exec) enterSection(cfg *Config, ld *lockDecl, o *origin) {
 	}
 	if x.c != nil && x.c.Options["old"] == "section" {
 		cfg.old = cfg.st.clone()
+		x.resnapLoopGhost(cfg)
 	}
 }
 
@@ -666,7 +667,13 @@ type abortedVal struct{}
 func (x *Exec) closeChan(cfg *Config, ch Term, pos token.Pos) {
 	x.nilcheck(cfg, ch, "close of nil channel", pos)
 	closed := x.heapGet(cfg.st, "$closed", SArr(SInt, SBool))
-	x.oblige(cfg, "close-of-closed-channel", x.lockName(ch), Not(Select(closed, ch)), nil, pos)
+	// a definite double close on this path is reported; absence of a double
+	// close in general is not an obligation (the ghost channel state is
+	// forgotten at every point where other goroutines or callees may have
+	// closed channels, so it could not be discharged for harmless code)
+	if c := Select(closed, ch); c.S == "true" {
+		x.oblige(cfg, "close-of-closed-channel", x.lockName(ch), False, nil, pos)
+	}
 	cfg.st.heap["$closed"] = Store(closed, ch, True)
 	cfg.closedNow = true
 	// option closes-after <channel variable> <function variable>: the channel
